@@ -31,6 +31,8 @@ struct Job {
     ctx: Ctx,
     /// the input is handed to the parser at this offset (0..7) inside its buffer: different alignment of the same text
     align: usize,
+    /// the job is run this many times in a row (only the last result is kept): cheap way to age a thread by 2^16 parses
+    repeat: usize,
 }
 
 fn parse_job(v: &Value) -> Job {
@@ -43,6 +45,7 @@ fn parse_job(v: &Value) -> Job {
         entry: Entry::from_name(v.get("entry").and_then(|e| e.as_str()).unwrap_or("noop")).expect("job.entry"),
         ctx: Ctx { retval: g(0), a_count: g(1), calls: 0 },
         align: v.get("align").and_then(|a| a.as_u64()).unwrap_or(0) as usize % 8,
+        repeat: v.get("repeat").and_then(|a| a.as_u64()).unwrap_or(1).max(1) as usize,
     }
 }
 
@@ -118,7 +121,9 @@ fn cmd_list() {
 fn cmd_oracle() {
     let v: Value = serde_json::from_str(&read_stdin()).expect("job json");
     let job = parse_job(&v);
+    // the isolated run happens on a thread called "main" (as in a plain program), simulations on threads called task<n>
     let r = std::thread::Builder::new()
+        .name("main".into())
         .stack_size(STACK_BYTES)
         .spawn(move || {
             simrt::set_job(0, job.input.len() as u32);
@@ -171,6 +176,9 @@ fn run_one(sim: &Arc<Sim>, task: usize, j: usize, job: &Job, fresh: bool, reuse:
         }
         simrt::set_job(j as u16, job.input.len() as u32);
         simrt::emit(EV_JOB_START, &job.variant, NO_OFF);
+        for _ in 1..job.repeat {
+            let _ = run_job_in_buffer(job, job.entry, reuse);
+        }
         let r = run_job_in_buffer(job, job.entry, reuse);
         simrt::emit(EV_JOB_END, &job.variant, NO_OFF);
         r
@@ -198,6 +206,14 @@ fn cmd_run() {
         .iter()
         .map(|t| t.as_array().expect("task").iter().map(parse_job).collect())
         .collect();
+    if let Some(env) = plan.get("env").and_then(|e| e.as_object()) {
+        // process environment of this simulation (set before any thread exists)
+        for (k, v) in env {
+            if let Some(v) = v.as_str() {
+                std::env::set_var(k, v);
+            }
+        }
+    }
     let n = tasks.len();
     let fresh = plan.get("fresh_threads").and_then(|x| x.as_bool()).unwrap_or(false);
     let keep_log = plan.get("keep_log").and_then(|x| x.as_bool()).unwrap_or(false);
